@@ -607,6 +607,17 @@ func (c *Conn) Offset() (offset int64, whence int) {
 	return
 }
 
+// currentOffset returns the raw value of the connection's offset, it may be one
+// of the FirstOffset or LastOffset sentinels. The offset is modified by Seek
+// and by closing batches, possibly from other goroutines, so it must only be
+// read while holding the mutex.
+func (c *Conn) currentOffset() int64 {
+	c.mutex.Lock()
+	offset := c.offset
+	c.mutex.Unlock()
+	return offset
+}
+
 const (
 	SeekStart    = 0 // Seek relative to the first offset available in the partition.
 	SeekAbsolute = 1 // Seek to an absolute offset.
